@@ -444,4 +444,57 @@ example : Golib.Gen.Trans.C14.Index [5, 7, 9, 7] (7 : Int) = .ok 1 ∧
     Golib.Gen.Trans.C14.Contains [5, 7, 9, 7] (8 : Int) = .ok false := by
   refine ⟨?_, ?_, ?_⟩ <;> decide +kernel
 
+/-! ### Regenerated tie (wave 8), continued: `slicez.Equal` / `slicez.Filter` translated by `go2lean`
+
+Abstraction between the generated code and the model: the translator's slices are content lists
+without aliasing and without a nil/empty distinction (`Sl.xs`; the nil flag is not represented);
+a model-side `none` (Go panic) is `Res.panic` (`resOfOption`).  The other C14 functions are
+outside the translator's subset (`nil` slice results: SubSlice, Copy, Chunk; results aliasing a
+written parameter: Remove, UniqueInPlace, FilterInPlace; maps: Unique; error-returning callback:
+ChunkProcess) and stay tied by correspondence + drift hash only. -/
+
+/-- TIE: the translated `Equal` (length test, `s2 = s2[:len(s1)]`, a `range` loop with an early
+`return false`) equals the model's `equal` on every pair of slices — panic (`none`) exactly where
+the model panics, which is nowhere (`c14_equal`); fuel `len(s1) + 1` suffices. -/
+theorem c14_trans_Equal (s1 s2 : List Int) :
+    Golib.Gen.Trans.C14.Equal s1 s2 = resOfOption (equal s1 s2) :=
+  trans_equal s1 s2
+
+/-- The property clause directly on the regenerated definition: `Equal` never panics and decides
+equality of the contents. -/
+theorem c14_trans_Equal_decides (s1 s2 : List Int) :
+    Golib.Gen.Trans.C14.Equal s1 s2 = .ok (decide (s1 = s2)) :=
+  trans_equal_decide s1 s2
+
+/-- Non-vacuity: equal, differing in the last element, differing in length, both empty. -/
+example : Golib.Gen.Trans.C14.Equal [1, 2, 3] ([1, 2, 3] : List Int) = .ok true ∧
+    Golib.Gen.Trans.C14.Equal [1, 2, 3] ([1, 2, 4] : List Int) = .ok false ∧
+    Golib.Gen.Trans.C14.Equal [1, 2] ([1, 2, 3] : List Int) = .ok false ∧
+    Golib.Gen.Trans.C14.Equal [] ([] : List Int) = .ok true := by
+  refine ⟨?_, ?_, ?_, ?_⟩ <;> decide +kernel
+
+/-- TIE: the translated `Filter` (`dst = dst[:0]`, a `range` loop appending the selected
+elements; the callback is a pure total `Int → Bool`, the translator's stated assumption) equals
+the model's `filter` at every dst layout the translation covers — `dst` sharing no memory with
+`s` (`Dst.nil` / `Dst.fresh`, the translator's no-alias convention; the aliased layouts
+`dst = s[:k]` are `c14_filter_alias` on the hand-written model): same returned content, the
+model leaves both memories untouched there, no panic, for EVERY prior content of `dst`; fuel
+`len(s) + 1` suffices. -/
+theorem c14_trans_Filter (dst s m2 : List Int) (p : Int → Bool) (d : Dst) (n1 : Bool)
+    (hd : d = .nil ∨ d = .fresh) :
+    Golib.Gen.Trans.C14.Filter dst s p
+      = resOfOption ((filter p d n1 ⟨s, m2⟩).map fun r => r.res.xs) ∧
+    (filter p d n1 ⟨s, m2⟩).map (fun r => r.mem) = some ⟨s, m2⟩ :=
+  trans_filter dst s m2 p d n1 hd
+
+/-- The property clause directly on the regenerated definition: the selected elements in order. -/
+theorem c14_trans_Filter_spec (dst s : List Int) (p : Int → Bool) :
+    Golib.Gen.Trans.C14.Filter dst s p = .ok (s.filter p) :=
+  trans_filter_spec dst s p
+
+/-- Non-vacuity: duplicates kept in order, old `dst` content dropped, nothing selected → empty. -/
+example : Golib.Gen.Trans.C14.Filter [9, 9] ([2, 1, 2, 3, 1] : List Int) (fun v => v != 2) = .ok [1, 3, 1] ∧
+    Golib.Gen.Trans.C14.Filter [] ([2, 2] : List Int) (fun v => v != 2) = .ok [] := by
+  refine ⟨?_, ?_⟩ <;> decide +kernel
+
 end Golib.C14
